@@ -531,10 +531,15 @@ def _decidable(state, fname):
 from mc.tasks.base import Undefined  # noqa: E402
 
 TASK.edge_space = edge_space
+# the relations are also evaluated with a non-default base frequency that lies INSIDE the lattice's pitch range (300 Hz:
+# some pitches get negative cent values; no lattice frequency or scaled lattice frequency equals 300 Hz exactly, where
+# hz2cents gives 0 = "unvoiced").  Decidability does not depend on the base: it only shifts every cent value.
+_BASES = [{}, {"base_frequency": 300.0}]
 TASK.edges = {
-    "pitchscale": {"apply": _scale_edges, "funcs": [PIPE], "keys": None, "ok": _decidable},
+    "pitchscale": {"apply": _scale_edges, "funcs": [PIPE], "keys": None, "ok": _decidable, "cfgs": _BASES},
     "octave": {"apply": _octave_edges, "funcs": [PIPE], "keys": ["Voicing Recall", "Voicing False Alarm",
-                                                                 "Raw Chroma Accuracy"], "ok": _decidable},
+                                                                 "Raw Chroma Accuracy"], "ok": _decidable,
+               "cfgs": _BASES},
     "negate": {"apply": _negate_edges, "funcs": [PIPE], "keys": ["Raw Pitch Accuracy", "Raw Chroma Accuracy"],
-               "ok": _decidable},
+               "ok": _decidable, "cfgs": _BASES},
 }
